@@ -38,7 +38,7 @@ def required(tier):
     b = {f'kind:{k}': 3 for k in set(KINDS)}
     b.update({f'flags:{k}': 1 for k in range(16)})
     b.update({'fault-raised': 30, 'gap>0': 30, 'frames>=3': 30, 'standalone:before': 20, 'standalone:after': 20,
-              'order:first-frame-is-latest': 10, 'subset-of-overwritten-cadence': 10, 'frames-with-customised-time-axis': 40})
+              'order:first-frame-is-latest': 10, 'subset-of-overwritten-cadence': 10, 'frames-with-customised-time-axis': 40, 'frames-built-from-one-background-array': 30})
     return {'buckets': b, 'counters': {'frames_compared': 300, 'ts_restore_checks': 500, 'faults_injected': 100,
                                        'line_failpoints_fired': 20}, 'checks': 2000, 'nontrivial': 100}
 
@@ -81,6 +81,8 @@ def gen_cases(seed, tier):
                  repeats=int(rng.integers(1, 3)), t_overwrite=bool(rng.integers(2)) if kind == 'times' else False,
                  t_slew=float(common.pick(rng, [0.0, 1.0, 123.456, 1e3])), ordered=bool(rng.integers(2)),
                  sub=int(rng.integers(2 ** 31)))
+        if equal and common.stratum(j, 66, 3) == 0 and kind not in ('natural',):
+            c['shared_bg'] = True
         if common.stratum(j, 65, 4) == 0 and kind not in ('natural',):
             c['ts_shift'] = float(common.pick(rng, [5.0, 0.5 * g['dt'], 1234.5]))
         if kind in ('normal', 'normal_subset'):
@@ -106,8 +108,14 @@ def build_cadence(stg, c):
     t = c['t0']
     for k, tc in enumerate(c['tchans']):
         t += c['gaps'][k] if k else 0.0
-        fr = stg.Frame(fchans=g['fchans'], tchans=tc, df=g['df'], dt=g['dt'], fch1=g['fch1'], ascending=g['asc'],
-                       seed=c['sub'] + k, t_start=t)
+        if c.get('shared_bg') and len(set(c['tchans'])) == 1:
+            # every observation starts from the same background array (one ndarray handed to each constructor)
+            if k == 0:
+                bg_ = np.random.default_rng(c['sub']).normal(10.0, 1.0, size=(tc, g['fchans']))
+            fr = stg.Frame.from_data(g['df'], g['dt'], g['fch1'], g['asc'], bg_, seed=c['sub'] + k, t_start=t)
+        else:
+            fr = stg.Frame(fchans=g['fchans'], tchans=tc, df=g['df'], dt=g['dt'], fch1=g['fch1'], ascending=g['asc'],
+                           seed=c['sub'] + k, t_start=t)
         if c.get('ts_shift'):
             # the frame's public time axis customised by its owner (mid-sample time stamps, an offset axis): it is what the signal
             # is evaluated on, and it is what must be there again afterwards
@@ -159,6 +167,8 @@ def run_case(c, R):
     R.bucket('kind:' + c['kind'])
     if c.get('ts_shift'):
         R.bucket('frames-with-customised-time-axis')
+    if c.get('shared_bg') and len(set(c['tchans'])) == 1:
+        R.bucket('frames-built-from-one-background-array')
     o = c['opts']
     R.bucket(f"flags:{sum(1 << k for k, n in enumerate(('integrate_path', 'integrate_t_profile', 'integrate_f_profile', 'doppler_smearing')) if o[n])}")
     mon = CadenceMonitor(stg, R)
